@@ -428,6 +428,19 @@ class Fn:
             self._defs = d
         return self._defs
 
+    def mut_borrowed(self):
+        """locals of which a `&mut` (or `*mut`) reference is taken somewhere: their fields can change without an assignment
+        that names them, so a field read must not be resolved to the component the local was built with"""
+        mb = self.__dict__.get("_mutb")
+        if mb is None:
+            mb = set()
+            for b in self.blocks:
+                for st in b["st"]:
+                    if st.get("k") == "=" and st["r"][0] in ("ref", "rawptr") and len(st["r"]) > 2 and st["r"][1] in ("mut", "Mut", "mutable") and not any(pr[0] == "d" for pr in st["r"][2][1]):
+                        mb.add(st["r"][2][0])
+            self.__dict__["_mutb"] = mb
+        return mb
+
     def single_def(self, local):
         # a store through the pointer held by the local (`(*p).f = v`) does not redefine the local
         ds = [x for x in self.defs().get(local, []) if not self.is_cleanup(x[0])
@@ -521,7 +534,7 @@ class Fn:
                 if projs and projs[0][0] == "dc":
                     i = 1
                 if len(projs) > i and projs[i][0] == "f" and r[1].get("k") in ("tuple", "adt", "closure", "coroutine") and projs[i][1] < len(r[2]) \
-                        and not (r[1].get("k") == "adt" and len(r[1].get("fields", [])) != len(r[2])):
+                        and not (r[1].get("k") == "adt" and len(r[1].get("fields", [])) != len(r[2])) and l not in self.mut_borrowed():
                     op = r[2][projs[i][1]]
                     rest = projs[i + 1:]
                     if op[0] == "k":
